@@ -132,7 +132,33 @@ def main() -> int:
     # 5. verdict
     lines = []
     n_viol = 0
-    known = ctx.findings
+    # violations that are listed known findings (same call site `where`, and the entry's `match`
+    # predicate - implemented by the module in MATCHERS - accepts the concrete case) are not alarms
+    matchers = getattr(mod, 'MATCHERS', {})
+
+    def find_known(v):
+        for f in ctx.findings:
+            if f.get('kind') != 'known' or not v.get('where') or f.get('where') != v.get('where'):
+                continue
+            pred = matchers.get(f.get('match', ''), None)
+            if f.get('match') and pred is None:
+                continue
+            if pred is None or pred(v.get('case')):
+                return f
+        return None
+
+    def split_known(items):
+        remaining = []
+        for v in items:
+            hit = find_known(v)
+            if hit is None:
+                remaining.append(v)
+            elif not any(h[0]['id'] == hit['id'] for h in res.known_hits):
+                res.known_hits.append((hit, 'e.g. ' + json.dumps(v.get('case'), default=str)[:160]))
+        return remaining
+
+    res.violations = split_known(res.violations)
+    res.divergences = split_known(res.divergences)
     for f, detail in res.known_hits:
         lines.append(f"KNOWN-FINDING: property={prop} {f['what_fails']} [{f['id']}] {detail}")
     if (res.divergences or broken) and not res.violations and hasattr(mod, 'search'):
@@ -193,8 +219,8 @@ def main() -> int:
         'wall_s': round(wall, 2),
         'violations': n_viol,
     }
-    (core.VERIF / 'evidence').mkdir(exist_ok=True)
-    (core.VERIF / 'evidence' / f'{prop}.json').write_text(json.dumps(ev, indent=1, default=str))
+    (core.OUT / 'evidence').mkdir(parents=True, exist_ok=True)
+    (core.OUT / 'evidence' / f'{prop}.json').write_text(json.dumps(ev, indent=1, default=str))
     for l in lines:
         print(l)
     print(
